@@ -722,6 +722,15 @@ impl PredicatePushdown {
         // Build result: common conditions + simplified OR
         let mut result = common;
 
+        // A branch made of common conditions only contributes TRUE to the
+        // disjunction of the remainders: `(A AND B) OR A` is `A AND (B OR TRUE)`,
+        // i.e. `A` (absorption, which also holds in three-valued logic).
+        // Dropping that branch and keeping the others' remainders turned the
+        // predicate into `A AND B` and lost rows.
+        if remaining_branches.iter().any(|branch| branch.is_empty()) {
+            return Some(result);
+        }
+
         // Only add the OR if branches have remaining conditions
         let non_empty_branches: Vec<Expr> = remaining_branches
             .into_iter()
